@@ -566,6 +566,17 @@ def c04_families(tier, seed, ids=None):
                          assign("col", lst([])), fr(["v"], [call("outer", I(4))], assign("col", bin_("+", N("col"), lst([N("v")])))), N("col")]
             sw.append(mk(ids, items, {"switch": bname, "where": where}))
     out.append(("function literals evaluated right after a switch between loop body and generator", sw, ("value",)))
+    # a capturing closure made by one function, held in a parameter or local of another, called by a function literal of that other one
+    fc = []
+    offs = assign("offs", fn(["n", "label"], fn(["x"], bin_("+", N("x"), N("n")))))
+    offone = assign("offone", fn(["n"], fn(["x"], bin_("+", N("x"), N("n")))))
+    scaled = assign("scaled", fn(["k", "f"], fn(["x"], bin_("*", call("f", N("x")), N("k")))))
+    runf = assign("runf", fn(["f", "v"], call("f", N("v"))))
+    twice = assign("twice", fn(["m", "cb"], call("runf", fn(["x"], call("cb", call("cb", N("x")))), N("m"))))
+    local2 = assign("vialocal", fn(["m"], block([assign("cb", call("offs", I(7), I(0))), assign("g", fn(["x"], bin_("+", call("cb", N("x")), N("m")))), call("g", I(1))])))
+    fc.append(mk(ids, [offs, offone, scaled, runf, twice, local2, assign("h", call("scaled", I(10), call("offs", I(3), I(0)))), call("h", I(1)), call("twice", I(100), call("offs", I(5), I(0))),
+                       call("scaled", I(2), call("offone", I(4))), call("h", I(2)), call("vialocal", I(1000)), assign("hh", call("scaled", I(3), N("h"))), call("hh", I(1))], {"foreign-closure": True}))
+    out.append(("a capturing closure of one function called through a captured variable of another", fc, ("value",)))
     # closures that leave a generator by yield and are called after the loop over it has run to its end (known finding D26)
     ye = []
     ygen = assign("ygen", fn(["a"], block([y(fn([], N("a"))), y(fn(["x"], bin_("+", N("x"), un("#", N("a")))))])))
@@ -1047,7 +1058,20 @@ def c10_families(tier, seed, ids=None):
                 else:
                     items = [assign("mkcl", fn(["a"], fn([], N("a")))), assign("run", fn([], block(build + fork + [probe2]))), call("run"), call("run")]
                 fk.append(mk(ids, items, {"ops": ["fork", "fork"], "fork": [strs, k, where]}))
-    return [("operation histories over values that share structure", ss, ("value",)), ("a grown value extended twice", fk, ("value",))]
+    cg = []
+    gen = assign("cgen", fn(["a"], block([y(fn([], N("a"))), y(fn([], lst([N("a"), N("a")])))])))
+    pick = assign("cpick", fn(["a"], block([fr(["g"], [call("cgen", N("a"))], ret(N("g"))), I(0)])))
+    for strs in (False, True):
+        v1, v2 = (St("ab"), St("x")) if strs else (lst([I(1), I(2)]), lst([St("x")]))
+        for later in ("loop", "pick-again", "nested-loops", "zip"):
+            after = {"loop": [fr(["i"], [call("elems", lst([I(7), I(8), I(9)]))], assign("s", N("i")))],
+                     "pick-again": [assign("j", call("cpick", v2))],
+                     "nested-loops": [fr(["i"], [call("fromto", I(0), I(2))], fr(["w"], [call("fromto", I(5), I(7))], assign("s", bin_("+", N("i"), N("w")))))],
+                     "zip": [fr(["i", "w"], [call("fromto", I(0), I(3)), call("elems", lst([I(4), I(5), I(6)]))], assign("s", bin_("+", N("i"), N("w"))))]}[later]
+            body = [assign("k", call("cpick", v1)), assign("ra", call("k"))] + after + [assign("rb", call("k"))] + after + [lst([N("ra"), N("rb"), call("k")])]
+            cg.append(mk(ids, [gen, pick, assign("cmain", fn([], block(body))), call("cmain"), call("cmain"), block(body)], {"ops": ["capture", "reuse"], "captured": [strs, later]}))
+    return [("operation histories over values that share structure", ss, ("value",)), ("a grown value extended twice", fk, ("value",)),
+            ("a value captured by a closure that left its generator, across later loops of the same statement", cg, ("value",))]
 
 
 def c10_nontrivial(v):
